@@ -305,7 +305,7 @@ def run_model(mode, text):
     return vlib.run_model(mode, text, driver='autoremove')
 
 
-def correspond(ctx, binaries, cases, oracle='model', what='CounterRemover/ConditionalRemover', max_reports=3):
+def correspond(ctx, binaries, cases, oracle='model', what='CounterRemover/ConditionalRemover', max_reports=3, chunk=400):
     ids = [str(i) for i in range(len(cases))]
     texts = {i: case_text(i, cases[int(i)]) for i in ids}
     alltext = ''.join(texts[i] for i in ids)
@@ -324,12 +324,18 @@ def correspond(ctx, binaries, cases, oracle='model', what='CounterRemover/Condit
     stats['distinct_nontrivial'] = len(distinct)
     stats['features'] = feats
     reported = 0
-    for bname, binary in binaries.items():
-        impl = vlib.run_impl(binary, texts, usable)
+    # in chunks: once enough disagreements have been reported (a broken tree may crash on every
+    # other case, and every crash restarts the harness) the rest of the stream is not run
+    chunks = [(bname, binary, usable[j:j + chunk]) for bname, binary in binaries.items() for j in range(0, len(usable), chunk)]
+    for bname, binary, part in chunks:
+        if reported >= max_reports:
+            stats['not_run_after_reports'] = stats.get('not_run_after_reports', 0) + len(part)
+            continue
+        impl = vlib.run_impl(binary, texts, part)
         if '__exit__' in impl:
-            ctx.violation(''.join(texts[i] for i in usable[:50]), '%s: harness %s: %s at process exit' % (what, bname, impl['__exit__'][0]), key='exit-leak')
+            ctx.violation(''.join(texts[i] for i in part[:50]), '%s: harness %s: %s at process exit' % (what, bname, impl['__exit__'][0]), key='exit-leak')
             reported += 1
-        for i in usable:
+        for i in part:
             stats['compared'] += 1
             a = model[i]
             b = impl.get(i, ['<missing>'])
